@@ -97,6 +97,8 @@ def adu(framer, tid, uid, pdu):
     if framer == "binary":
         body = bytes([uid]) + pdu
         return b"{" + body + crc16(body) + b"}"
+    if framer == "tls":
+        return pdu                      # no unit id, no transaction id, no check: one PDU per TLS record
     raise ValueError(framer)
 
 
@@ -124,13 +126,36 @@ def split_adus(framer, data):
         if len(data) < 4 or crc16(data[:-2]) != data[-2:]:
             return None
         return [(None, data[0], data[1], data[2:-2])]
+    if framer == "ascii":
+        while data:
+            end = data.find(b"\r\n")
+            if not data.startswith(b":") or end < 0:
+                return None
+            try:
+                raw = bytes.fromhex(data[1:end].decode())
+            except ValueError:
+                return None
+            if len(raw) < 3 or (sum(raw[:-1]) + raw[-1]) & 0xFF != 0:
+                return None
+            out.append((None, raw[0], raw[1], raw[2:-1]))
+            data = data[end + 2:]
+        return out
+    if framer == "binary":   # one write == one frame; the body may hold doubled delimiters (not compared)
+        if len(data) < 6 or data[:1] != b"{" or data[-1:] != b"}":
+            return None
+        return [(None, data[1], data[2], data[3:-3])]
+    if framer == "tls":      # one write == one PDU
+        if len(data) < 1:
+            return None
+        return [(None, None, data[0], data[1:])]
     raise ValueError(framer)
 
 
 def framer_class(framer):
     from pymodbus.transaction import ModbusSocketFramer, ModbusRtuFramer, ModbusAsciiFramer, ModbusBinaryFramer
+    from pymodbus.framer.tls_framer import ModbusTlsFramer
     return {"socket": ModbusSocketFramer, "rtu": ModbusRtuFramer, "ascii": ModbusAsciiFramer,
-            "binary": ModbusBinaryFramer}[framer]
+            "binary": ModbusBinaryFramer, "tls": ModbusTlsFramer}[framer]
 
 
 # ----------------------------------------------------------------------------- recording
